@@ -374,6 +374,50 @@ def r17_6(ctx: Ctx):
         ctx.ok(rid, 'Evolvent', 'no lazily cached derived attribute exists', ev.module.relpath)
 
 
+def _self_rooted(base, selfv) -> bool:
+    if key_of(base) == key_of(selfv):
+        return True
+    a = base.single_atom() if hasattr(base, 'single_atom') else None
+    return isinstance(a, tuple) and len(a) >= 3 and a[0] == 'attr' and a[1] == key_of(selfv)
+
+
+def r17_9(ctx: Ctx):
+    """Re-configuration is all or nothing.  A SetBounds call that rejects its arguments (raises) after it has already
+    replaced one of the bound arrays leaves a box nobody configured - new lower with old upper bounds: every later
+    query answers for that box, so the results depend on an earlier, *failed* call and not on the configured bounds."""
+    rid = 'R17.9'
+    ctx.rule(rid, 'validate, then commit: on every path of a configuration routine of the evolvent (SetBounds) that '
+                  'ends in a raise, no attribute of the evolvent was stored before the raise')
+    from . import evo as _evo
+    e = _evo.evo_of(ctx)
+    n = 0
+    for name in ('SetBounds',):
+        fn = e.cls.methods.get(name)
+        if fn is None:
+            continue
+        selfv = var(fn.param_names[0])
+        for p in e.explorer(unroll=1).explore(fn):
+            n += 1
+            if p.outcome != 'raise':
+                continue
+            raises = [i for i, ev_ in enumerate(p.events) if ev_.kind == 'raise']
+            last = raises[-1] if raises else len(p.events)
+            early = [ev_ for ev_ in p.events[:last] if ev_.kind == 'store' and ev_.d['tkind'] in ('attr', 'sub', 'aug')
+                     and ev_.d['base'] is not None and _self_rooted(ev_.d['base'], selfv)]
+            if early:
+                st = early[0]
+                ctx.fail(rid, fn.short, st.func.loc(st.node),
+                         f'{fn.short} stores into the evolvent ({ast.unparse(st.node)[:60]}) and can still reject the call '
+                         f'afterwards (raise at {fn.loc(p.events[last].node) if raises else "?"}): a rejected call '
+                         f'leaves the evolvent with a mixture of old and new bounds, and every later query answers for '
+                         f'a box that was never configured', key=f'{rid}::{fn.short}::store-before-raise')
+                break
+    ctx.floor(rid, 'paths of the configuration routines', n, 1)
+    if not any(x.rule == rid for x in ctx.findings):
+        ctx.ok(rid, 'Evolvent.SetBounds', f'{n} paths: no raising path stores into the evolvent before it raises',
+               e.cls.module.relpath)
+
+
 def r17_7(ctx: Ctx):
     """Configuration routines are idempotent.  A routine that can be called any number of times after construction
     (SetBounds ...) and defines an attribute the queries read from that attribute's own previous value
@@ -424,6 +468,8 @@ def check(ctx: Ctx):
     if C.want(ctx, 'R17.8'):
         from . import evo as _evo
         _evo.rule_no_shared_state(ctx, 'R17.8')
+    if C.want(ctx, 'R17.9'):
+        r17_9(ctx)
     if C.want(ctx, 'R17.7'):
         r17_7(ctx)
     if C.want(ctx, 'R17.6'):
